@@ -32,7 +32,7 @@ def main():
     for (size, secs) in nvmjobs.loader_instances(tier):
         jobs.append(nvmjobs.loader_job(size, secs, tier, 'c12'))
     if tier == 'thorough':
-        for size in (0, 8, 31, 32, 44):
+        for size in (0, 8, 31):     # 32 and 44 (a fully symbolic header in front of a directory): SAT out of memory (measured)
             jobs.append(nvmjobs.loader_job(size, [], tier, 'c12', free_header=True))
     run_jobs(jobs)
     meta = {
